@@ -82,7 +82,8 @@ def detect(name, checks, tier="quick"):
   stays untouched while other work goes on; `final` does the same by applying to /repo itself."""
   d = os.path.join(VERIF, "seeded", name)
   wt = "/tmp/seedwt_%s_%d" % (name, os.getpid())
-  rc, out = sh("git -C /repo worktree add -q --detach %s HEAD" % wt)
+  base = os.environ.get("SEED_BASE", "HEAD")     # a change made against an older tree (before a later fix: commit) is checked on that tree
+  rc, out = sh("git -C /repo worktree add -q --detach %s %s" % (wt, base))
   if rc != 0:
     print("cannot create worktree", out); return 2
   results = {}
@@ -110,7 +111,8 @@ def detect(name, checks, tier="quick"):
   for c, r in results.items():
     meta["detection"]["%s/%s" % (c, tier)] = r
   meta["detected_by"] = sorted({k.split("/")[0] for k, r in meta["detection"].items() if r["exit"] == 1})
-  meta.setdefault("what_i_ran", []).append("checks %s (%s) with VERIF_REPO = scratch worktree of /repo HEAD %s + patch.diff" % (checks, tier, sh("git -C /repo log --format=%h -1")[1].strip()))
+  meta.setdefault("what_i_ran", []).append("checks %s (%s) with VERIF_REPO = scratch worktree of /repo %s + patch.diff" % (
+    checks, tier, ("HEAD " + sh("git -C /repo log --format=%h -1")[1].strip()) if base == "HEAD" else ("at commit " + base + " (the tree the change was written against)")))
   json.dump(meta, open(mp, "w"), indent=1)
   return 0
 
